@@ -16,7 +16,7 @@ CLAIM = dict(
           "p and default-transposing twice restore shape and every index; swapaxes is NumPy's swap and a transpose by a "
           "permutation; flip (None, one axis, an axis list; negative axes normalised as in NumPy) reads NumPy's element and flipping twice is the identity; squeeze after "
           "expand_dims restores a unit-free shape and every index; every index map stays inside the source. "
-          "moveaxis with one source and one destination axis (moveaxis(a, s, d), negative spellings included) is proved for "
+          "moveaxis with one source and one destination axis (moveaxis(a, s, d) or one-element lists, negative spellings included) is proved for "
           "EVERY dimension: the library's order is NumPy's, a permutation, shape / element / in-bounds follow. "
           "PARTIAL: moveaxis with axis LISTS is proved for sources of dimension <= 5 (any extents) by a kernel "
           "sweep of the finite argument space; above that lists are corresponded only. "
@@ -37,7 +37,7 @@ RULE = ("all source shapes dim 1..4 extents 1..3 (quick; thorough: extents 1..4)
         "((2,3),(2,3,4),(2,3,4,5) in every arrangement): every ordered sub-list (ascending, descending, shuffled), written "
         "non-negatively / all-negatively / with mixed signs, lengths 1..dim, held in std::vector<int|size_t>, static_vector, "
         "std::array<int|size_t>, int[N], run-time tuple and tuple of constants (drivers/c03_lists.cpp); "
-        "sampled larger shapes (dim <= 5, extents <= 7); a malformed stream (spec 'unspecified', only crashes are looked at by C15). "
+        "sampled larger shapes (dim <= 5, extents <= 7); high_dim: sources of dimension 6..8 (extents 1..3) under moveaxis (single axes and lists, view and index level), swapaxes, transpose, flip; a malformed stream (spec 'unspecified', only crashes are looked at by C15). "
         "non-trivial = source of dim >= 2 with some extent > 1; distinct = distinct case lines")
 THEOREM_STATUS = {
     "proved": ["C03_reshape_shape", "C03_reshape_C_order", "C03_flatten", "C03_transpose_shape", "C03_transpose_element",
